@@ -367,20 +367,30 @@ PROPS = {
                   "bounded run-time stand-in (token-tree vs doctree comparison on generated documents) for the whole pipeline",
     ),
     "C06": dict(
-        level="exploration",
-        contracts=[],
+        level="other",
+        contracts=["contracts.lines"],
         harness=True,
         explanation=(
-            "BOUNDED ONLY so far (the plumbing contracts of nested_render_text / MockState.nested_parse / run_directive are "
-            "not yet under contract; the ownership half - the shared md_env and the restored renderer state - is in C15's "
-            "frame pass): nodes produced inside a note directive body at depth 1-4, backtick and colon fences, equal the "
+            "PROVED (pyvc, relative to the docutils node model and the assumed induction hypothesis G' for the dynamic "
+            "dispatch inside _render_tokens): MockState.nested_parse - what a docutils directive calls for its body - "
+            "renders the block's lines joined by newlines through the SAME renderer (nested_render_text) with `node` as the "
+            "current node, at source offset state line + input_offset, with a temporary root only when titles were asked "
+            "for; afterwards the current node and match_titles are what they were, `node` keeps what it had, and every "
+            "other node that existed keeps its children, parent and kind (everything the body produced is below `node`); "
+            "nested_render_text itself carries G' through (parses the text, drops a leading front-matter token, shifts the "
+            "lines, renders, restores heading offset / open-section map / temporary root).  NOT under contract: "
+            "run_directive, render_fence / render_colon_fence, MockIncludeDirective.run, render_substitution; the ownership "
+            "half (shared md_env, restored renderer state) is in C15's frame pass.  BOUNDED: nodes produced inside a note "
+            "directive body at depth 1-4, backtick and colon fences, equal the "
             "nodes of the same generated Markdown at top level; include and block substitution equal the text in place; "
             "reference definitions, footnotes and targets defined inside an include / directive body stay usable from later "
             "top-level text and later directive bodies."
         ),
-        assumptions=["docutils admonition directives pass content and offset unchanged to nested_parse"],
-        trusted_base=[],
-        technique="bounded run-time stand-in (nested vs top-level rendering of generated Markdown) - no contract discharged yet",
+        assumptions=["docutils directives call state.nested_parse(content, content_offset, node) for their body",
+                     "G' for the part of _render_tokens after its first loop (see C02)"],
+        trusted_base=["markdown-it-py parse (ParseResult)", "docutils node model"],
+        technique="contract-based deductive verification of MockState.nested_parse and nested_render_text (generic render contract carried through "
+                  "nested rendering); bounded run-time stand-in (nested vs top-level rendering of generated Markdown) for the rest",
     ),
     "C09": dict(
         level="exploration",
